@@ -267,6 +267,31 @@ func Run(r *mc.Run) {
 			}
 		}
 	}
+	// the same names with one component in upper case, first letter upper case, or all components upper case (names are
+	// compared as written: an upper-case "ANY" or "GNU" is a name of its own, not the wildcard / the default ABI)
+	base := []string{"any", "all", "linux", "gnu", "amd64"}
+	var lower []string
+	for _, a := range base {
+		lower = append(lower, a)
+		for _, b := range base {
+			lower = append(lower, a+"-"+b)
+			for _, c := range base {
+				lower = append(lower, a+"-"+b+"-"+c)
+			}
+		}
+	}
+	for _, n := range lower {
+		parts := strings.Split(n, "-")
+		for i := range parts {
+			q := append([]string{}, parts...)
+			q[i] = strings.ToUpper(q[i])
+			names = append(names, strings.Join(q, "-"))
+			q[i] = strings.ToUpper(parts[i][:1]) + parts[i][1:]
+			names = append(names, strings.Join(q, "-"))
+		}
+		names = append(names, strings.ToUpper(n))
+	}
+	names = gen.Dedup(names)
 	names = append(names, gen.AuditStrings(gen.Nameish, 6)...) // alphabet audit: whole architecture names a change introduced
 	names = append(names, "gnueabihf-linux-arm", "gnueabi-linux-arm", "gnux32-linux-amd64", "uclibc-linux-armel", "armhf", "armel", "x32", "arm64", "riscv64", "hurd-amd64")
 	names = append(names, "a-b-c-d", "gnu-linux-amd64-x", "", "-", "a-", "-a", "a--b", "--", "any-", "-any", "all-all", "all-amd64", "gnu-all-all", "é", "i386", "armhf", "hurd-i386", "gnueabihf-linux-arm")
@@ -293,6 +318,36 @@ func Run(r *mc.Run) {
 				for _, v := range vs {
 					st.Violate(v)
 				}
+			}
+		}
+		return true
+	})
+	// characters that Unicode calls white space but the field grammar does not (only blank, tab and newline separate
+	// tokens): wherever the parser accepts one inside a token, the rendering must keep it
+	var uni []string
+	for _, c := range []string{"\f", "\v", "\u00a0", "\u0085", "\u2003", "\u3000", "\u200b", "\ufeff"} {
+		for _, t := range []string{"a%sb", "%sa", "a%s", "a (>= 1%s)", "a (>= 1%s2)", "a (>=%s1)", "a [amd64%s]", "a [amd64%si386]", "a <p%sq>", "a <p%s>", "a:any%s", "a%s| b", "a%s, b", "${x%sy}", "a (>= 1) [amd64] <p>%s"} {
+			uni = append(uni, fmt.Sprintf(t, c))
+		}
+	}
+	r.Scenario("unicode-space-characters", map[string]interface{}{"characters": "FF VT NBSP NEL EM-SPACE IDEOGRAPHIC-SPACE ZWSP BOM", "texts": len(uni)}, 1, func(_ int, st *mc.Stats) bool {
+		for _, t := range uni {
+			st.Evals++
+			vs, acc := checkFix("unicode-space-characters", In{t})
+			switch {
+			case !acc && len(vs) == 0:
+				st.Class("rejected")
+			case len(vs) == 0:
+				st.Class("accepted-fixpoint")
+				st.Nontrivial++
+				st.Traces++
+			default:
+				st.Class("accepted-broken")
+				st.Nontrivial++
+				st.Traces++
+			}
+			for _, v := range vs {
+				st.Violate(v)
 			}
 		}
 		return true
